@@ -1,190 +1,38 @@
 /-
 Complete reads (C05 exactly-once corollary, C07 first-error clause): when read() has returned
 the end-of-data marker it popped from the osmdata queue, everything was delivered and no stage
-had failed.
+had failed.  Top-level module of the PipelineComplete*/PipelineShapeOut* files.
 
-Status of this file (no `sorry`):
-* proved outright: `read_fails_when_not_okay`, `after_eod`, and the invariants `Complete.invA` (all buffer
-  values are well-formed: nested levels non-empty), `Complete.invB` (consumer discipline: inside read() the
-  back buffers are empty and the status is okay; after the end marker the status is never okay again),
-  `Complete.invN` (future ids: even/odd id classes, freshness, `fut id = some v → v = want id`).
-* `eod_means_no_fault_partial`, `complete_read_partial`: proved from explicitly stated missing invariants
-  (see the comments at the theorems).
+Parts (each file checks in < 90 s):
+  PipelineCompleteBase   closed forms, `pc_cases`, statements of all invariants
+  PipelineCompleteA/B    `Complete.invA` (buffer values), `Complete.invB` (status / back buffers)
+  PipelineCompleteN1-4,N `Complete.invN` (future ids)
+  PipelineShapeOutJ      `Complete.invJ` (only the consumer shuts the osmdata queue down)
+  PipelineShapeOutD1,D   `Complete.invD` (consumer discipline: read() stops at exc / eod; holds the last popped)
+  PipelineShapeOutF      `Complete.fifo_out`, `Complete.called_eq_popped` (FIFO of the osmdata queue)
+  PipelineShapeOutZ      `Complete.invZ` (every fault is on its way as an exception value)
+  PipelineShapeOutO1     `Complete.invO1` (continuations of the parser's pushes)
+  PipelineShapeOutO2     transfer lemmas L1/L2/L5 for `InvO2`
+  PipelineShapeOutO3,O   `Complete.invO2`, `Complete.invO` (shape of what the parser hands to push() of the
+                         osmdata queue: the end marker is the LAST call, preceded by an exception or a clean end)
+  PipelineShapeOutE      `Complete.at_eod`, `Complete.delivered_at_eod`, `Complete.no_fault_at_eod`
+  PipelineShapeOutT      `Complete.invT1`, `Complete.invT2` (transport to all later states)
+
+`complete_read` and `eod_means_no_fault` are proved without further hypotheses; the older `_partial`
+forms are kept for dependants.
 -/
-import Osmium.Lemmas.PipelineOrder0
+import Osmium.Lemmas.PipelineShapeOutT
 
 set_option linter.unusedSimpArgs false
 set_option linter.unusedVariables false
-
 
 namespace Osmium.Pipeline
 open Osmium.Mon
 variable {α : Type} [DecidableEq α]
 
 namespace Complete
-
-def apBack (s : State α) (lv : List (List α)) : List (List α) := if lv.length ≤ 1 then s.back else lv.tail
-def apCpc (lv : List (List α)) : CPc α := if (lv.headD []).isEmpty then .readPop else .ret (.data (lv.headD []))
-
-omit [DecidableEq α] in
-theorem cx_afterPop (s : State α) (lv : List (List α)) :
-    afterPop s lv = { s with back := apBack s lv, cpc := apCpc lv, delivered := s.delivered ++ lv.headD [] } := by
-  unfold afterPop apBack apCpc
-  split <;> (try split) <;> simp_all
-  all_goals (rename_i h; cases ‹List (List α)› <;> simp_all)
-
-def acStatus (s : State α) : CK → Status
-  | .rethrow _ => .error
-  | _ => s.status
-def acCpc : CK → CPc α
-  | .ret => .ret .ok
-  | .rethrow c => .ret (.exc c)
-  | .dtor => .dtorJoinP
-
-omit [DecidableEq α] in
-theorem cx_afterClose (s : State α) (k : CK) :
-    afterClose s k = { s with readsAtClose := s.readsAtClose.or (some s.reads), status := acStatus s k, cpc := acCpc k } := by
-  cases k <;> rfl
-
-syntax "pc_cases " ident " with " ident : tactic
-macro_rules
-  | `(tactic| pc_cases $e:ident with $h:ident) => `(tactic|
-      ((try simp only [Machine.Step, machine] at $h:ident)
-       cases $e:ident <;> (try (rename_i qe; cases qe)) <;>
-         simp only [step?] at $h:ident <;> (repeat' split at $h:ident) <;>
-         simp only [Option.map_eq_some_iff, Option.some.injEq, reduceCtorEq, false_and, exists_false] at $h:ident <;>
-         first
-           | (obtain ⟨q, hq, $h:ident⟩ := $h:ident
-              simp only [QueueSM.step?] at hq
-              (repeat' split at hq) <;> simp only [Option.some.injEq, reduceCtorEq] at hq <;> subst hq <;>
-              (repeat' split at $h:ident) <;> subst $h:ident)
-           | (subst $h:ident; try simp only [cx_afterPop, cx_afterClose])))
-
-omit [DecidableEq α] in
-theorem wf_snoc (l : List (List α)) (x : List α) (h : ∀ y ∈ l, y ≠ []) : wfLevels (l ++ [x]) = true := by
-  induction l with
-  | nil => rfl
-  | cons a l ih =>
-    have := ih (fun y hy => h y (List.mem_cons_of_mem _ hy))
-    cases l with
-    | nil => simp_all [wfLevels]
-    | cons b l => simp_all [wfLevels]
-
-/-- values of a thread pc -/
-def rVal : RPc α → Option (Val α)
-  | .push v _ | .pushing _ v _ | .pushed _ v _ => some v
-  | _ => none
-def pVal : PPc α → Option (Val α)
-  | .push v _ | .pushing _ (some v) _ | .pushed _ v _ => some v
-  | _ => none
-
-def okVal : Val α → Prop
-  | .buf lv => wfLevels lv = true
-  | _ => True
-
-structure InvA (s : State α) : Prop where
-  nested_ne : ∀ l ∈ s.nested, l ≠ []
-  cur_ne : s.nested ≠ [] → s.cur ≠ []
-  want_ok : ∀ id, okVal (s.want id)
-  fut_ok : ∀ id v, s.fut id = some v → okVal v
-  p_ok : ∀ v, pVal s.ppc = some v → okVal v
-  r_ok : ∀ v, rVal s.rpc = some v → okVal v
-
-set_option maxHeartbeats 1600000 in
-theorem invA (c : Cfg α) : ∀ s, (machine c).Reachable s → InvA s := by
-  apply Machine.invariant
-  · constructor <;> simp [machine, init, okVal, pVal, rVal]
-  · intro s e s' _ ih hst
-    obtain ⟨h1, h2, h3, h4, h5, h6⟩ := ih
-    pc_cases e with hst
-    all_goals (refine ⟨?_, ?_, ?_, ?_, ?_, ?_⟩ <;> first
-      | assumption
-      | (simp_all [pVal, rVal, okVal, setPc_apply, pCont, rCont]; done)
-      | (intro id; simp only [setPc_apply]; split <;> simp_all [okVal]; done)
-      | (intro id v; simp only [setPc_apply]; split <;> simp_all [okVal, pVal, rVal]; done)
-      | (simp_all [pVal, rVal, okVal, setPc_apply, pCont, rCont] <;> grind [wf_snoc, okVal])
-      | (simp_all [pVal, okVal, wfLevels]; done))
-
-
-omit [DecidableEq α] in
-theorem wf_head (lv : List (List α)) (h : wfLevels lv = true) (he : (lv.headD []).isEmpty = true) : lv.length ≤ 1 := by
-  match lv with
-  | [] => simp
-  | [_] => simp
-  | a :: b :: r => simp_all [wfLevels]
-
-def inR : CPc α → Prop
-  | .readPop | .readWaitPop | .readGot _ | .eodSd | .eodSdRun => True
-  | _ => False
-
-def inClose : CPc α → Prop
-  | .closeSd _ | .closeSdRun _ | .closeJoin _ | .dtorJoinP | .dtorSd | .dtorSdRun | .dead | .eofJoin => True
-  | _ => False
-
-structure InvB (c : Cfg α) (s : State α) : Prop where
-  b_R : inR s.cpc → s.back = [] ∧ s.status = .okay ∧ c.nothing = false
-  b_saw : s.sawEod = true → s.status ≠ .okay ∧ s.back = [] ∧ c.nothing = false
-  b_close : inClose s.cpc → s.status ≠ .okay
-
-set_option maxHeartbeats 1600000 in
-theorem invB (c : Cfg α) : ∀ s, (machine c).Reachable s → InvB c s := by
-  apply Machine.invariant
-  · constructor <;> simp [machine, init, inR, inClose]
-  · intro s e s' hr ih hst
-    have hA := (invA c s hr).fut_ok
-    obtain ⟨h1, h2, h3⟩ := ih
-    pc_cases e with hst
-    all_goals (refine ⟨?_, ?_, ?_⟩ <;> first
-      | assumption
-      | (simp_all [inR, inClose, apCpc, apBack, acStatus, acCpc]; done)
-      | (simp_all [inR, inClose, apCpc, apBack, acStatus, acCpc] <;> grind [wf_head, okVal])
-      | skip)
-
-structure InvN (s : State α) : Prop where
-  n_rpc : ∀ id v k, s.rpc = .pushing id v k ∨ s.rpc = .pushed id v k → id % 2 = 0 ∧ id < 2 * s.nIn ∧ s.want id = v
-  n_ppc : ∀ id v k, s.ppc = .pushing id (some v) k ∨ s.ppc = .pushed id v k → id % 2 = 1 ∧ id < 2 * s.nOut ∧ s.want id = v
-  n_ppcf : ∀ id k, s.ppc = .pushFut id k ∨ s.ppc = .pushing id none k → id % 2 = 1 ∧ id < 2 * s.nOut
-  n_fut : ∀ id v, s.fut id = some v → v = s.want id ∧ (id % 2 = 0 → id < 2 * s.nIn) ∧ (id % 2 = 1 → id < 2 * s.nOut)
-  n_work : ∀ id, id ∈ s.work → id % 2 = 1 ∧ id < 2 * s.nOut
-  n_wpc : ∀ w id, s.wpc w = some id → id % 2 = 1 ∧ id < 2 * s.nOut
-  n_oc : ∀ y ∈ s.outq.called, y.2 % 2 = 1 ∧ y.2 < 2 * s.nOut
-  n_ic : ∀ y ∈ s.inq.called, y.2 % 2 = 0 ∧ y.2 < 2 * s.nIn
-  n_pin : ∀ id ov k, s.ppc = .pushing id ov k → ∃ y ∈ s.outq.called, y.2 = id
-  n_pin2 : ∀ id v k, s.ppc = .pushed id v k → ∃ y ∈ s.outq.called, y.2 = id
-
-set_option maxHeartbeats 3200000 in
-theorem invN (c : Cfg α) : ∀ s, (machine c).Reachable s → InvN s := by
-  apply Machine.invariant
-  · constructor <;> simp [machine, init, QueueSM.init]
-  · intro s e s' hr ih hst
-    obtain ⟨h1, h2, h3, h4, h5, h6, h7, h8, h9, h10⟩ := ih
-    pc_cases e with hst
-    all_goals (refine ⟨?_, ?_, ?_, ?_, ?_, ?_, ?_, ?_, ?_, ?_⟩ <;> first
-      | assumption
-      | (simp only [QueueSM.take_called]; assumption)
-      | (simp_all [setPc_apply, pCont, rCont]; done)
-      | (simp only [setPc_apply, QueueSM.take_called, pCont, rCont]; grind)
-      | skip)
-
-
-def isExc : Val α → Prop
-  | .exc _ => True
-  | _ => False
-
-/-- an exception raised on the reader side is on its way to the parser -/
-def EvR (s : State α) : Prop :=
-  (∃ v, rVal s.rpc = some v ∧ isExc v) ∨ ∃ y ∈ s.inq.called, isExc (s.want y.2)
-
-/-- an exception is on its way from the parser to the consumer -/
-def EvP (s : State α) : Prop :=
-  (∃ code, s.ppc = .caught code) ∨ (∃ v, pVal s.ppc = some v ∧ isExc v) ∨
-  (∃ id k, s.ppc = .pushFut id k ∧ isExc (s.want id)) ∨ ∃ y ∈ s.outq.called, isExc (s.want y.2)
-
-structure InvZ (s : State α) : Prop where
-  z_rin : ∀ id v k, s.rpc = .pushing id v k ∨ s.rpc = .pushed id v k → ∃ y ∈ s.inq.called, y.2 = id
-  z : s.faulted = true → EvR s ∨ EvP s
-
-
+/-- an exception raised on the reader side is on its way to the parser (= `InExc`) -/
+def EvR (s : State α) : Prop := InExc s
 end Complete
 
 /-- C05 `read_after_eof_fails`: once the status is eof (or error, or closed) and no back buffers
@@ -210,16 +58,33 @@ theorem eod_means_something_wanted (c : Cfg α) (s : State α) (h : (machine c).
     (hd : s.sawEod = true) : c.nothing = false :=
   ((Complete.invB c s h).b_saw hd).2.2
 
-/-- C07 `first_error_reported` (order part), PARTIAL.
-    MISSING INVARIANT (hypothesis `hg`): "when the consumer has the end marker no exception is on its way":
-      `s.sawEod = true → ¬ Complete.EvR s ∧ ¬ Complete.EvP s`
-    where `EvR` = the read thread is pushing an exception or a future with an exception was handed to
-    push() of the input queue, `EvP` = the parser is in its catch block / is pushing an exception / a
-    future with an exception was handed to push() of the osmdata queue.  Proof route (not finished):
-    FIFO of both queues while in use (`called = popped ++ items ++ inflight`), the shape of what each
-    producer pushes (data*, then [exc, eod] or [eod]; the end marker is the LAST call), consumer
-    discipline (status okay ⇒ every popped future was a buffer), parser discipline (running ⇒ every
-    popped input future was a chunk or the clean end marker). Also missing (hypothesis `hz`): fault tracking `s.faulted = true → EvR s ∨ EvP s`. -/
+/-- C05 `exactly_once_in_order`: a complete read (read() has returned the end marker it popped from the
+    osmdata queue) has delivered exactly `deliver c`, in order, each object once.
+    (`hb`: a blob whose decoding throws in a pool worker is needed by `parser_side`; with such a fault a
+    complete read is impossible anyway, see `eod_means_no_fault`.) -/
+theorem complete_read (c : Cfg α) (wf : c.WF) (hb : c.blobFault = none) (s : State α)
+    (h : (machine c).Reachable s) (hd : s.sawEod = true) : s.delivered = deliver c ∧ s.back = [] :=
+  ⟨Complete.invT2 c wf hb s h (.inr (.inr hd)), (after_eod c wf s h hd).2⟩
+
+/-- C07 `first_error_reported` (order part): a complete read means no stage has raised an exception. -/
+theorem eod_means_no_fault (c : Cfg α) (wf : c.WF) (s : State α) (h : (machine c).Reachable s)
+    (hd : s.sawEod = true) : s.faulted = false :=
+  (Complete.invT1 c wf s h (.inr (.inr hd))).1
+
+/-- `complete_read` at the moment read() unpacks the end marker, from `Complete.InvO c s` (now proved:
+    `Complete.invO`); kept for dependants. -/
+theorem complete_read_at_eod_partial (c : Cfg α) (wf : c.WF) (hb : c.blobFault = none) (s : State α)
+    (h : (machine c).Reachable s) (hO : Complete.InvO c s) (id : Nat) (hc : s.cpc = .readGot id)
+    (hf : s.fut id = some .eod) : s.delivered = deliver c ∧ s.back = [] :=
+  ⟨Complete.delivered_at_eod c wf hb s h hO id hc hf, (Complete.at_eod c wf s h hO id hc hf).2.2.2.2.2.1⟩
+
+/-- `eod_means_no_fault` at the moment read() unpacks the end marker; kept for dependants. -/
+theorem eod_means_no_fault_at_eod_partial (c : Cfg α) (wf : c.WF) (s : State α)
+    (h : (machine c).Reachable s) (hO : Complete.InvO c s) (id : Nat) (hc : s.cpc = .readGot id)
+    (hf : s.fut id = some .eod) : s.faulted = false :=
+  Complete.no_fault_at_eod c wf s h hO id hc hf
+
+/-- older PARTIAL form of `eod_means_no_fault` (superseded; kept for Props/C07). -/
 theorem eod_means_no_fault_partial (c : Cfg α) (wf : c.WF) (s : State α) (h : (machine c).Reachable s)
     (hd : s.sawEod = true)
     (hz : s.faulted = true → Complete.EvR s ∨ Complete.EvP s)
@@ -231,13 +96,7 @@ theorem eod_means_no_fault_partial (c : Cfg α) (wf : c.WF) (s : State α) (h : 
     · exact absurd h1 (hg hd).1
     · exact absurd h1 (hg hd).2
 
-/-- C05 `exactly_once_in_order`, PARTIAL (added hypothesis `hb : c.blobFault = none`, needed by `parser_side`).
-    MISSING INVARIANT (hypotheses `hq hp hu`): when the consumer has the end marker
-    (i) every future handed to push() of the osmdata queue was popped (`called = popped`: FIFO + the end
-    marker is the last call), (ii) the parser is past its last push (`pend s = []`), (iii) the parser had
-    used all its input: `upstream c s = []` (clean end ⇒ `cur = []`, hence `nested = []` by
-    `Complete.invA`, and `next = avail = c.file.length` because the read thread delivered all chunks:
-    `stop = false` while the status is okay, `wf.chunk_last`). -/
+/-- older PARTIAL form of `complete_read` (superseded; kept for dependants). -/
 theorem complete_read_partial (c : Cfg α) (wf : c.WF) (hb : c.blobFault = none) (s : State α)
     (h : (machine c).Reachable s) (hd : s.sawEod = true)
     (hq : s.outq.called = s.outq.popped.map (fun p => p.2)) (hp : pend s = []) (hu : upstream c s = []) :
